@@ -334,3 +334,39 @@ Definition is_raise (o : obs) : bool := match o with ORaise => true | _ => false
 Definition ev_disp_connected (e : event) : bool := match e with EDispConnected => true | _ => false end.
 Definition ev_success (e : event) : bool := match e with ESuccess => true | _ => false end.
 Definition ev_tick (e : event) : bool := match e with ETick => true | _ => false end.
+
+(* ---------- automatic reconnect: what the statements count ---------- *)
+Definition ev_connect (e : event) : bool :=
+  match e with EConnectReq | EConnectCall => true | _ => false end.
+(* a stream error after which the interface layer reconnects when the option is on *)
+Definition ev_reconnecting_error (e : event) : bool :=
+  match e with EStreamError k => negb (is_conflict k) | _ => false end.
+
+(* dispatchers the stack created on its own: creations in reaction to an event that is not a connect
+   request / connect call of the application *)
+Fixpoint auto_creates (c : cfg) (s : state) (h : list event) : nat :=
+  match h with
+  | [] => 0%nat
+  | e :: h' =>
+    ((if ev_connect e then 0%nat else countb is_create (snd (step c s e)))
+     + auto_creates c (fst (step c s e)) h')%nat
+  end.
+(* dispatchers created in reaction to a connect request / connect call *)
+Fixpoint req_creates (c : cfg) (s : state) (h : list event) : nat :=
+  match h with
+  | [] => 0%nat
+  | e :: h' =>
+    ((if ev_connect e then countb is_create (snd (step c s e)) else 0%nat)
+     + req_creates c (fst (step c s e)) h')%nat
+  end.
+
+(* events that end a session without a pending automatic reconnect: a disconnect request, a login
+   failure, a stream error that is a sign-in conflict or arrives with the option off, and a socket
+   error / peer close of a connection that is up or being established *)
+Definition ends_session (c : cfg) (s : state) (e : event) : bool :=
+  match e with
+  | EDisconnectReq | EFailure => true
+  | EStreamError k => negb (c_reconnect c && negb (is_conflict k))
+  | ESockError | EPeerClose => negb (ns_eqb (ns s) NsDisconnected)
+  | _ => false
+  end.
